@@ -263,6 +263,88 @@ fn faithful_case(rng: &mut Rng, st: &mut Stats, ascii: bool) {
     }
 }
 
+/// Long flat chains (2..300 operands): sizes the bounded enumeration cannot reach. OR chains, AND
+/// chains and OR-of-AND chains; the parsed policy and its DNF are compared with the source on
+/// sampled assignments (all-false, all-true, each single attribute true, 64 random ones).
+fn long_chains(st: &mut Stats, rng: &mut Rng) {
+    let sizes: Vec<usize> = (2..40).step_by(3).chain([63, 64, 65, 100, 127, 128, 129, 130, 131, 160, 200, 255, 256, 257, 300]).collect();
+    for n in sizes {
+        for kind in 0..3 {
+            let attrs: Vec<(String, String)> = (0..n).map(|i| (format!("D{}", i % 7), format!("a{i}"))).collect();
+            let (f, text) = match kind {
+                0 => (Pol::Or(attrs.iter().map(|(d, a)| Pol::attr(d, a)).collect()), attrs.iter().map(|(d, a)| format!("{d}::{a}")).collect::<Vec<_>>().join(" || ")),
+                1 => (Pol::And(attrs.iter().map(|(d, a)| Pol::attr(d, a)).collect()), attrs.iter().map(|(d, a)| format!("{d}::{a}")).collect::<Vec<_>>().join(" && ")),
+                _ => {
+                    let pairs: Vec<Pol> = attrs.chunks(2).map(|c| Pol::And(c.iter().map(|(d, a)| Pol::attr(d, a)).collect())).collect();
+                    let text = attrs.chunks(2).map(|c| c.iter().map(|(d, a)| format!("{d}::{a}")).collect::<Vec<_>>().join(" && ")).collect::<Vec<_>>().join(" || ");
+                    (Pol::Or(pairs), text)
+                }
+            };
+            st.bump("long_chains");
+            let kname = ["or", "and", "or-of-and"][kind];
+            let replay = json!({"monitor": "c15", "kind": "chain", "operands": n, "operator": kname});
+            let parsed = match real::parse(&text) {
+                Out::Ok(p) => p,
+                o => {
+                    st.findings.push(Finding {
+                        prop: "C15".into(),
+                        signature: format!("C15:grammar-string-rejected:long-chain:{}", if o.is_panic() { "panic" } else { "error" }),
+                        detail: format!("a flat {kname} chain of {n} attributes: {}", o.describe()),
+                        replay,
+                    });
+                    continue;
+                }
+            };
+            let dnf = match real::call_inf(|| parsed.to_dnf()) {
+                Out::Ok(d) => d,
+                o => {
+                    st.findings.push(Finding { prop: "C15".into(), signature: "C15:to_dnf-panics".into(), detail: format!("{kname} chain of {n}: {}", o.describe()), replay });
+                    continue;
+                }
+            };
+            let expected_clauses = match kind { 0 => n, 1 => 1, _ => (n + 1) / 2 };
+            if dnf.len() != expected_clauses {
+                st.findings.push(Finding {
+                    prop: "C15".into(),
+                    signature: "C15:dnf-not-equivalent:long-chain".into(),
+                    detail: format!("{kname} chain of {n}: {} DNF clauses, expected {expected_clauses}", dnf.len()),
+                    replay,
+                });
+                continue;
+            }
+            let mut assignments: Vec<Vec<bool>> = vec![vec![false; n], vec![true; n]];
+            for i in 0..n {
+                let mut v = vec![false; n];
+                v[i] = true;
+                assignments.push(v);
+                let mut v = vec![true; n];
+                v[i] = false;
+                assignments.push(v);
+            }
+            for _ in 0..64 {
+                assignments.push((0..n).map(|_| rng.chance(1, 2)).collect());
+            }
+            for asg in assignments {
+                let truth = |d: &str, a: &str| -> bool { attrs.iter().position(|(x, y)| x == d && y == a).map_or(false, |i| asg[i]) };
+                let want = f.eval(&truth);
+                let tree = eval(&parsed, &truth);
+                let flat = dnf.iter().any(|c| c.iter().all(|q| truth(&q.dimension, &q.name)));
+                st.bump("assignments_evaluated");
+                if tree != want || flat != want {
+                    st.findings.push(Finding {
+                        prop: "C15".into(),
+                        signature: format!("C15:{}:long-chain", if tree != want { "parsed-policy-not-equivalent" } else { "dnf-not-equivalent" }),
+                        detail: format!("{kname} chain of {n}: formula {want}, parsed {tree}, DNF {flat}"),
+                        replay: replay.clone(),
+                    });
+                    break;
+                }
+            }
+            st.shapes.insert(fnv(format!("chain|{kname}|{n}").as_bytes()));
+        }
+    }
+}
+
 pub fn run(tier: &str, seed: u64, threads: usize, replay: Option<serde_json::Value>) -> Stats {
     if let Some(r) = replay {
         let mut st = Stats::default();
@@ -306,6 +388,9 @@ pub fn run(tier: &str, seed: u64, threads: usize, replay: Option<serde_json::Val
             }
             for i in 0..n_formulas / threads {
                 faithful_case(&mut rng, &mut st, i % 2 == 0);
+            }
+            if t == 0 {
+                long_chains(&mut st, &mut rng);
             }
             // findings can be numerous on a broken tree: keep the first of each signature
             let mut seen = BTreeSet::new();
